@@ -227,6 +227,44 @@ var registry = []*bigslice.FuncValue{
 	}),
 	/* 13 */ bigslice.Func(func(n int, sh Shape) bigslice.Slice { return buildFrom(descAll(n, sh), n) }),
 	/* 14 */ bigslice.Func(func(x interface{}) bigslice.Slice { return buildFrom(descAll(x), 0) }).Exclusive(),
+	// 15-18: DAGs of results, run end-to-end (part (d)); rows are (k, value)
+	/* 15 */ bigslice.Func(func(n int) bigslice.Slice {
+		return bigslice.Map(bigslice.Const(n, []int{0, 1, 2, 3, 4, 5}, []int{0, 1, 2, 3, 4, 5}), func(k, v int) (int, int) { return k, v })
+	}),
+	/* 16 */ bigslice.Func(func(in bigslice.Slice, add int) bigslice.Slice {
+		return bigslice.Map(in, func(k, v int) (int, int) { return k, v + add })
+	}),
+	/* 17 */ bigslice.Func(func(a *exec.Result, b bigslice.Slice, shards int) bigslice.Slice { return joinSum(shards, a, b) }),
+	/* 18 */ bigslice.Func(func(a, b, c bigslice.Slice, shards int) bigslice.Slice { return joinSum(shards, a, b, c) }),
+}
+
+func sum(xs ...[]int) int {
+	t := 0
+	for _, x := range xs {
+		for _, v := range x {
+			t += v
+		}
+	}
+	return t
+}
+
+// joinSum joins result arguments by key into a slice of the given number of shards
+// (so that its tasks need more procs than the machines that computed the arguments
+// have); row (k, sum of the values of k in all inputs).
+func joinSum(shards int, in ...bigslice.Slice) bigslice.Slice {
+	var cs []bigslice.Slice
+	for i, x := range in {
+		y := bigslice.Map(x, func(k, v int) (int, int) { return k, v })
+		if i == 0 {
+			y = bigslice.Reshard(y, shards)
+		}
+		cs = append(cs, y)
+	}
+	cg := bigslice.Cogroup(cs...)
+	if len(cs) == 2 {
+		return bigslice.Map(cg, func(k int, a, b []int) (int, int) { return k, sum(a, b) })
+	}
+	return bigslice.Map(cg, func(k int, a, b, c []int) (int, int) { return k, sum(a, b, c) })
 }
 
 // ---- argument domains -------------------------------------------------------------------
